@@ -36,6 +36,7 @@ class _Runner(_Processor):
         self._tasks_concurrency_limit = tasks_concurrency_limit
         self._limiter = asyncio.Semaphore(tasks_concurrency_limit)
         self._tasks_processed = 0
+        self._tasks_started = 0
 
         self._health_check_server = health_check_server
 
@@ -100,9 +101,19 @@ class _Runner(_Processor):
                 await consumer.unpause()
             else:
                 await self._limiter.acquire()
+            if self._tasks_started >= self.max_tasks:
+                # the allowed number of executions was already started (by this or another queue):
+                # give the message back untouched and stop consuming
+                self._limiter.release()
+                await self._conn.message_broker.reject(key)
+                return
+            self._tasks_started += 1
             t = asyncio.create_task(self._process_with_event(actor, key, payload, params))
             self._tasks.add(t)
             t.add_done_callback(self._task_callback)
+            if self._tasks_started >= self.max_tasks:
+                # the last allowed execution is running: do not take another message
+                return
 
     async def run_one_queue(
         self,
